@@ -6,6 +6,7 @@ import (
 	"go/token"
 	"go/types"
 	"math"
+	"time"
 
 	"golang.org/x/tools/go/ssa"
 
@@ -53,6 +54,15 @@ type Engine struct {
 	smallMemo     map[int]bool
 	nonNegSet     map[int]bool
 	errT          types.Type
+	deadline      time.Time
+	feasCalls     int
+	session       *smt.Session
+	sessionTried  bool
+	feasSec       float64
+	feasN         int
+	paths         bool
+	pending       []callOut
+	feasMemo      map[string]bool
 }
 
 type closure struct {
@@ -88,6 +98,11 @@ func newEngine(w *World, h *Harness) *Engine {
 		ifaceAsserts: map[string]types.Type{}, litIDs: map[string]uint64{},
 		smallSet: map[int]bool{}, smallMemo: map[int]bool{}, nonNegSet: map[int]bool{},
 	}
+	e.deadline = time.Now().Add(time.Duration(w.GenSeconds) * time.Second)
+	e.M.deadline = e.deadline
+	e.paths = h.Paths
+	e.feasMemo = map[string]bool{}
+	c.Deadline = e.deadline.Add(10 * time.Second)
 	c.Distinct = e.M.distinctIDs
 	c.Small = e.isSmall
 	c.NonNeg = e.isNonNeg
